@@ -52,7 +52,9 @@ type boCoin struct {
 }
 
 type boOp struct {
-	K      string `json:"k"` // send mint burn burncoins coinomics daofund liquidate redeem convertcoin converterc20 setbalance
+	K      string `json:"k"` // send mint burn burncoins coinomics daofund liquidate redeem convertcoin converterc20 setbalance | user level: paramerc20 msgsend msgmultisend
+	Outs   []boCoin `json:"outs,omitempty"` // msgmultisend: outputs (d = recipient account, x = amount) of denomination D
+	Paired bool   `json:"paired,omitempty"` // msgsend (filled in by the harness): the denomination has an enabled token pair
 	Cs     []boCoin `json:"cs,omitempty"` // burncoins: the coin list (several denominations)
 	A      int    `json:"a"` // account (tracked index: 0..3 users, 100.. modules)
 	C      int    `json:"c,omitempty"`
@@ -107,6 +109,11 @@ func boCoins(cs []boCoin) (sdk.Coins, []boCoin) {
 func boAcc(a int) sdk.AccAddress {
 	if a < 100 {
 		return bhUserAcc[a%bhNU]
+	}
+	if a >= 110 { // the other blocked addresses (module accounts 110.., precompile addresses 120..): blockparams.go
+		if x, ok := blockedActor(a - 100 + bhBlockedBase); ok {
+			return sdk.AccAddress(x.Bytes())
+		}
 	}
 	for _, m := range boModules {
 		if m.ID == a {
@@ -281,8 +288,12 @@ func (e *boEnv) distrInvariant() (msg string, broken bool) {
 }
 
 // touchesDistr: operations of this driver that pay into or out of the distribution account directly, which no
-// message can do (the invariant is not expected to survive them).
+// message can do (the invariant is not expected to survive them).  The user-level operations (signed messages,
+// the parameter) are never among them.
 func (op boOp) touchesDistr() bool {
+	if op.userLevel() {
+		return false
+	}
 	return op.A == 101 || ((op.K == "send" || op.K == "liquidate" || op.K == "redeem") && op.C == 101)
 }
 
@@ -383,6 +394,23 @@ func (e *boEnv) apply(op *boOp) (ok bool, errs string) {
 		}
 	case "setbalance":
 		err = a.EvmKeeper.SetBalance(cctx, common.BytesToAddress(boAcc(op.A)), bigA(op.X))
+	case "paramerc20": // MsgUpdateParams of x/erc20 through the message router, signed by the governance authority
+		p := a.Erc20Keeper.GetParams(cctx)
+		p.EnableErc20 = op.X == "1"
+		err = routeMsg(a, cctx, &erc20types.MsgUpdateParams{Authority: authtypes.NewModuleAddress(govtypes.ModuleName).String(), Params: p})
+	case "msgsend": // the bank message server (Haqq's) through the message router
+		pair, found := a.Erc20Keeper.GetTokenPair(cctx, a.Erc20Keeper.GetTokenPairID(cctx, coin.Denom))
+		op.Paired = found && pair.Enabled
+		op.Conv = a.BankKeeper.SpendableCoins(cctx, boAcc(op.A)).AmountOf(coin.Denom).String()
+		err = routeMsg(a, cctx, &banktypes.MsgSend{FromAddress: boAcc(op.A).String(), ToAddress: boAcc(op.C).String(), Amount: sdk.Coins{coin}})
+	case "msgmultisend":
+		total := sdkmath.ZeroInt()
+		var outs []banktypes.Output
+		for _, o := range op.Outs {
+			total = total.Add(intA(o.X))
+			outs = append(outs, banktypes.Output{Address: boAcc(o.D).String(), Coins: sdk.Coins{sdk.Coin{Denom: boDenom(op.D), Amount: intA(o.X)}}})
+		}
+		err = routeMsg(a, cctx, &banktypes.MsgMultiSend{Inputs: []banktypes.Input{{Address: boAcc(op.A).String(), Coins: sdk.Coins{sdk.Coin{Denom: boDenom(op.D), Amount: total}}}}, Outputs: outs})
 	default:
 		err = fmt.Errorf("unknown op")
 	}
@@ -393,7 +421,29 @@ func (e *boEnv) apply(op *boOp) (ok bool, errs string) {
 	return true, ""
 }
 
+func (op boOp) userLevel() bool { return op.K == "paramerc20" || op.K == "msgsend" || op.K == "msgmultisend" }
+
+// coq: the operation as a [uop] of Bank/InvariantModel.v: the module operations wrapped in UMod, the signed
+// messages and the parameter as they are.
 func (op boOp) coq() string {
+	n := func(i int) string { return fmt.Sprintf("%d%%N", i) }
+	x := coqZ(bigA(op.X))
+	switch op.K {
+	case "paramerc20":
+		return fmt.Sprintf("UParamErc20 %s", coqBool(op.X == "1"))
+	case "msgsend":
+		return fmt.Sprintf("UMsgSend %s %s %s %s %s %s", n(op.A), n(op.C), n(op.D), x, coqBool(op.Paired), coqZ(bigA(op.Conv)))
+	case "msgmultisend":
+		var outs []string
+		for _, o := range op.Outs {
+			outs = append(outs, fmt.Sprintf("(%s, %s)", n(o.D), coqZ(bigA(o.X))))
+		}
+		return fmt.Sprintf("UMsgMultiSend %s %s %s", n(op.A), n(op.D), coqList(outs))
+	}
+	return "UMod (" + op.hopCoq() + ")"
+}
+
+func (op boOp) hopCoq() string {
 	n := func(i int) string { return fmt.Sprintf("%d%%N", i) }
 	x := coqZ(bigA(op.X))
 	switch op.K {
@@ -448,6 +498,24 @@ func boRunCase(id string, in boInput) Case {
 		in.Ops[i] = op
 		if msg, brokenAfter := e.distrInvariant(); brokenAfter && !brokenBefore && !op.touchesDistr() && oracle == "" {
 			oracle = fmt.Sprintf("after op %d (%s): registered invariant distribution/module-account held before and is broken now: %s", i, op.K, shortLog(msg))
+		}
+		if ok && oracle == "" {
+			// a signed message that names a blocked address (module account, precompile address) as recipient must be refused
+			var to []int
+			switch op.K {
+			case "msgsend":
+				to = []int{op.C}
+			case "msgmultisend":
+				for _, o := range op.Outs {
+					to = append(to, o.D)
+				}
+			}
+			for _, c := range to {
+				if c >= 100 && e.Rep.App.BankKeeper.BlockedAddr(boAcc(c)) {
+					oracle = fmt.Sprintf("op %d (%s) signed by user %d was ACCEPTED although its recipient %d (%s) is a blocked address (ERC20 module enabled: %v)",
+						i, op.K, op.A, c, boAcc(c), e.Rep.App.Erc20Keeper.IsERC20Enabled(e.Ctx))
+				}
+			}
 		}
 		if ok && op.K == "burncoins" {
 			if len(op.Cs) > 1 {
@@ -508,7 +576,40 @@ func boGen(r *Rng) boInput {
 	}
 	liquid := 0     // liquid denominations created so far in this case
 	erc := [4]int{} // 1 = holds ERC20 test tokens
+	blockedIDs := []int{101, 102, 103, 104, 101, 102, 103, 104, 100, 105, 106, 107, 108, 109, 110, 111, 112, 120, 121, 122, 123, 124, 125}
+	recipient := func(pBlocked int) int {
+		if r.Chance(pBlocked) {
+			return blockedIDs[r.Intn(len(blockedIDs))]
+		}
+		return r.Intn(4)
+	}
 	for len(in.Ops) < n {
+		if r.Chance(24) {
+			// user level: the x/erc20 parameter and signed bank messages, half of them to blocked addresses
+			switch k := r.Intn(100); {
+			case k < 25:
+				in.Ops = append(in.Ops, boOp{K: "paramerc20", X: []string{"0", "0", "0", "1", "1"}[r.Intn(5)]})
+			case k < 80:
+				d := []int{0, 0, 0, 1, 1, 6, 7}[r.Intn(7)]
+				x := amt(50)
+				if d != 0 {
+					x = big.NewInt(int64(r.Intn(1_500_000_000))).String()
+				}
+				in.Ops = append(in.Ops, boOp{K: "msgsend", A: []int{0, 3, 0, 3, 1, 2}[r.Intn(6)], C: recipient(50), D: d, X: x})
+			default:
+				d := []int{0, 0, 1}[r.Intn(3)]
+				var outs []boCoin
+				for i, m := 0, 1+r.Intn(3); i < m; i++ {
+					x := amt(20)
+					if d != 0 {
+						x = big.NewInt(int64(r.Intn(400_000_000))).String()
+					}
+					outs = append(outs, boCoin{D: recipient(25), X: x})
+				}
+				in.Ops = append(in.Ops, boOp{K: "msgmultisend", A: []int{0, 3}[r.Intn(2)], D: d, Outs: outs})
+			}
+			continue
+		}
 		switch k := r.Intn(100); {
 		case k < 12:
 			from := []int{0, 3, 0, 3, 105, 109}[r.Intn(6)]
